@@ -54,6 +54,11 @@ Bound       == WindowBound(cfg, g)
 \* M's deque is exactly the in-window suffix of the grant log
 DequeIsWindow == Len(PopOld(q, now - cfg.W)) = InWindow(cfg, g, now)
 
+\* the fold-free formulation used by the symbolic proof (apalache/BudgetInd.tla) is the same
+\* function on every reachable deque and every cutoff
+PopOldIsSelect ==
+    \A cut \in -(cfg.W + 1)..(MaxNow + 1) : PopOld(q, cut) = SelectSeq(q, LAMBDA e : e > cut)
+
 \* capacity returns exactly when grants age out: a refused consume(1) becomes
 \* grantable at the first instant the oldest in-window grant is W old, not before
 CapacityReturns ==
